@@ -31,7 +31,7 @@ Definition stats_step_ok (s : hstep) : bool :=
   negb (st_ok s) || negb (wager_act (hc_action (st_call s))) || st_closed s (* the block may already be cleared: the settlement tally decides *) ||
   match row_of (hc_action (st_call s)), index_of (hc_player (st_call s)) 0 (h_entries (st_pre s)) with
   | Some r, Some gp =>
-      let st' := apply_upds (hc_player (st_call s)) (Z.of_nat gp =? h_raiser (st_post s)) (h_wround (st_post s)) (ar_stats r) (tstats_of (h_stats (st_pre s))) in
+      let st' := apply_upds (hc_player (st_call s)) (Z.of_nat gp =? h_raiser (st_post s)) (h_round (st_pre s)) (ar_stats r) (tstats_of (h_stats (st_pre s))) in
       forallb (fun hs => pstat_matches (get st' (hs_id hs)) hs) (h_stats (st_post s))
   | _, _ => false
   end.
